@@ -18,7 +18,7 @@ def units(tier):
                       "the NUMERIC token language is transcribed by hand from tokenizer.re into the acceptor is_numeric_token (the re2c DFA itself is out of CBMC's reach, DESIGN §2.5)"],
              assumptions=["of C17 this unit covers the numeric-literal and implicit-multiplication clauses; precedence/associativity live in bison's LALR tables (not under contract); the function-name tables are unit name_tables",
                           "literals longer than the bound (incl. the strtol overflow path) and the HAVE_SYMENGINE_MPFR branch are not covered"])
-    return [u, names_unit(), setconn_unit()]
+    return [u, names_unit(), setconn_unit(), dispatch_unit()]
 
 PC = 'symengine/parser/parser.cpp'
 TABLES = ['functions', 'double_arg_functions', 'multi_arg_functions', 'single_arg_boolean_functions', 'single_arg_boolean_boolean_functions',
@@ -47,6 +47,8 @@ def replay_args(obl, inputs, res):
             chars[int(m.group(1))] = v['data']
         if k == 'e.n' and 'data' in v:
             n = int(re.sub(r'[ul]+$', '', v['data']))
+    if 'functionify.dispatch' in obl:
+        return [obl, "names=1"]
     if 'set_connective' in obl or 'vec_connective' in obl:
         return [obl, "connectives=1"]
     if 'functionify' in obl:
@@ -79,3 +81,17 @@ def setconn_unit():
     return Unit('set_connective', 'C17', 'contracts/C17/set_connective.cpp', {'setbool.inc': [piece], 'vecbool.inc': [vpiece]}, [e, ev], route='B',
                 trusted=["vec_basic / set_boolean fixed-capacity stubs (std::set keeps one copy of equal elements), table lookup abstracted to found / not found, RCP = opaque value id"],
                 assumptions=["only the And/Or/Nand/Nor and Xor/Xnor branches of Parser::functionify; the other branches of the params.size() dispatch are not under contract", "at most 3 operands"])
+
+
+def dispatch_unit():
+    piece = Piece(PC, r'^    if \(params\.size\(\) == 1\) \{', region_end=r'return it1->second\(params\);\s*\}', name='Parser::functionify — argument-count dispatch (params.size() == 1 .. end of the multi_arg_functions branch)', rules=[
+        R(r'const auto &(\w+) = init_parser_single_arg_functions\(\);', r'Table \1 = init_parser_single_arg_functions();', n=1, regex=True, why="reference to the static table -> copy of the table stub (reference-returning functions are mis-compiled by the front end)"),
+        R(r'auto (\w+) = (\w+)\.find\(name\);', r'TableIt \1 = \2.find(name);', regex=True, why="auto -> iterator type of the table stub"),
+        R(r'is_a_Boolean\(\*(\w+(?:\[\w+\])?)\)', r'is_a_Boolean_id(\1)', n='*', regex=True, why="type test on the ghost Boolean flag of the value id"),
+        R(r'throw (\w+)\(((?:[^;()"]|"[^"]*"|\([^()]*\))*)\);', r'VERIF_THROW(\1);', n='*', regex=True, why="exception object dropped"),
+        R(r'rcp_static_cast<const Boolean>\(', 'as_boolean(', n='*', regex=True, why="static cast of the RCP -> identity on value ids"),
+        R(r'\b(\w+)->second\(', r'call_entry(\1, ', regex=True, why="call through the std::function stored in the table row -> ghost call record")])
+    e = Entry('h_dispatch', defines={'CAP': 4}, route='F', timeout=600, mem_gb=6, unwind=10, bounds="operand counts 0..4 (the code distinguishes 1, 2, other), every found/not-found combination of the six tables; loop-free body")
+    return Unit('dispatch', 'C17', 'contracts/C17/dispatch.cpp', {'dispatch.inc': [piece]}, [e], route='F',
+                trusted=["each std::map lookup abstracted to found / not found (rows: unit name_tables); RCP = opaque value id with a ghost Boolean flag; call through std::function = ghost call record"],
+                assumptions=["operand lists longer than 4 behave like 3 and 4 (the code tests size() == 1 and == 2 only) — not checked beyond 4"])
